@@ -17,6 +17,7 @@ RULE = ("2-4 sender threads with 1-4 stanzas each through the real coder, noise 
         "stanzas by depth-first enumeration.  stream 'reconnect': sender threads and a network thread that loses the connection and completes a new login "
         "while senders are inside their sends; the second connection must carry frames of the second session only; the run is replayed on Model/StaleWrite. distinct = distinct (work, schedule).")
 RULE += (" stream 'sockwrite': the real socket dispatcher over loopback TCP to a slow reader, frames up to 3 MiB (thorough 8 MiB) from 1-4 threads writing under one lock: the peer reads every frame whole.")
+RULE += (" stream 'backlog': real network layer and asyncore dispatcher (socket operations stubbed): frames pile up, the connection is lost, reconnect and send — the new connection carries only its own bytes.")
 ASSUMPTIONS = ["CPython switches threads only between bytecodes; the scheduling points cover every operation on shared state of the data path (locks, cipher counter, "
                "stream queue, socket write) — a switch elsewhere is equivalent to one at the next point",
                "consonance's transport cipher is replaced by a stand-in that takes the next counter and writes the segment exactly where the real one does "
@@ -34,6 +35,9 @@ def cases(chk):
     ]
     for c in corpus:
         yield "random", c
+    # frames still waiting in the dispatcher when the connection is lost, then a reconnect on the same stack
+    for first, accept in (([300, 40, 1000], 0), ([70000], 1000), ([5], 0), ([100, 100], 1 << 20)):
+        yield "backlog", {"first": first, "accept": accept, "second": [7, 300]}
     # the socket dispatcher over a real TCP connection (loopback) to a peer that reads slowly: frames larger than what the kernel takes in one go,
     # from one sender and from several; every byte handed to sendData arrives, each frame in one piece
     for sizes, threads in (([1, 70000, 3 << 20, 5, 2 << 20], 1), ([3 << 20, 3 << 20, 3 << 20], 3), ([1 << 20] * 4 + [9], 2)) if chk.quick() else (
@@ -488,6 +492,76 @@ def run_reconnect(chk, case):
     return ofails + fails
 
 
+def run_backlog(chk, case):
+    """the real network layer and the real asyncore dispatcher (its socket operations stubbed): frames pile up in the dispatcher because the peer
+    does not read, the connection is lost, the stack connects again and sends: the new connection carries what was sent on it and nothing else"""
+    import asyncore
+    import yowsup.layers.network.layer as nl
+    from yowsup.layers import YowLayerEvent
+    from yowsup.layers.network import YowNetworkLayer
+    from yowsup.layers.network.dispatcher.dispatcher_asyncore import AsyncoreConnectionDispatcher as Real
+    from yowsup.stacks import YowStack
+    from lib.probes import Probe
+    wire = {}
+    state = {"conn": 0, "accept": 0}
+
+    class Stub(Real):
+        def connect(self, host):
+            state["conn"] += 1
+            self._verif_conn = state["conn"]
+            wire[self._verif_conn] = bytearray()
+            self.connectionCallbacks.onConnecting()
+
+        def close(self):
+            self.connected = False
+
+    real_send = asyncore.dispatcher.send
+
+    def send(self, data):
+        n = min(len(data), state["accept"])
+        wire[self._verif_conn] += bytes(data[:n])
+        return n
+    saved = nl.AsyncoreConnectionDispatcher
+    nl.AsyncoreConnectionDispatcher = Stub
+    asyncore.dispatcher.send = send
+    fails = []
+    try:
+        top = Probe("top")
+        stack = YowStack((YowNetworkLayer, top), reversed=False)
+        stack.setProp(YowNetworkLayer.PROP_ENDPOINT, ("127.0.0.1", 1))
+        net = stack.getLayer(0)
+        first = [bytes([0xA0 + i]) * n for i, n in enumerate(case["first"])]
+        second = [bytes([0xB0 + i]) * n for i, n in enumerate(case["second"])]
+        stack.broadcastEvent(YowLayerEvent(YowNetworkLayer.EVENT_STATE_CONNECT))
+        d1 = net._dispatcher
+        d1.handle_connect()
+        state["accept"] = case["accept"]          # how much the kernel takes per write on the first connection (0: the peer does not read)
+        for f in first:
+            net.send(f)
+        pending = len(d1.out_buffer)
+        d1.handle_close()                          # the connection is lost with `pending` bytes never written
+        stack.broadcastEvent(YowLayerEvent(YowNetworkLayer.EVENT_STATE_CONNECT))
+        d2 = net._dispatcher
+        d2.handle_connect()
+        state["accept"] = 1 << 20
+        for f in second:
+            net.send(f)
+        for _ in range(50):
+            if len(getattr(d2, "out_buffer", b"")):
+                d2.handle_write()
+        chk.hit("backlog:pending=%s" % ("0" if not pending else ">0"))
+        if state["conn"] != 2:
+            fails.append(oracle("C11:reconnect-opens-no-connection", "two CONNECT requests with a lost connection in between opened %d connections" % state["conn"]))
+        elif bytes(wire[2]) != b"".join(second):
+            fails.append(oracle("C11:bytes-of-a-lost-connection-on-the-next", "frames of %s bytes handed to the first connection (the kernel took %d bytes per write; %d bytes were still "
+                                "waiting when it was lost), then a reconnect and frames of %s bytes: the second connection carried %d bytes, %d were sent on it — it starts with %s"
+                                % (case["first"], case["accept"], pending, case["second"], len(wire[2]), sum(case["second"]), bytes(wire[2][:8]).hex())))
+    finally:
+        nl.AsyncoreConnectionDispatcher = saved
+        asyncore.dispatcher.send = real_send
+    return fails
+
+
 def run_sockwrite(chk, case):
     """the library's socket dispatcher (PROP_DISPATCHER = DISPATCHER_SOCKET) on a real loopback connection; the peer reads slowly so that the
     kernel's send buffer is full most of the time.  Each sender thread writes its frames under one lock (what the layers above guarantee:
@@ -593,6 +667,8 @@ def run_case(chk, stream, case):
     import random
     if stream == "sockwrite":
         return run_sockwrite(chk, case)
+    if stream == "backlog":
+        return run_backlog(chk, case)
     if stream == "reconnect":
         return run_reconnect(chk, case)
     if stream == "dispatcher":
